@@ -168,7 +168,7 @@ REGISTRY["C12"] = {
                    "blocks wrapped in 1..3 nested embedded sub-processes (inside parallel/inclusive branches too). Each run is in lock-step with the token "
                    "game (so the first request after the sub-process appears only after the last inner answer, exactly once; one ProcessLandMarkTrace per "
                    "activation; the enclosing instance completes) and the two engine runs must request the same logical tasks at every step and end with the "
-                   "same variables and completion status. TestC12CondOut: an activity with 2..3 conditional outgoing flows, as a plain task and wrapped in 1..3 nested sub-processes (the conditional flows then leave the outermost sub-process): the tokens continue on the same flows in both variants, those whose condition holds. TestC12MultiStart: sub-processes with 1..8 inner start events whose branches hold 0..2 tasks or are consumed at the start "
+                   "same variables and completion status. TestC12CondOut: an activity with 2..3 conditional outgoing flows, as a plain task and wrapped in 1..3 nested sub-processes (the conditional flows then leave the outermost sub-process): the tokens continue on the same flows in both variants, those whose condition holds. TestC12MultiStart: sub-processes with 1..12 inner start events whose branches hold 0..2 tasks or are consumed at the start "
                    "event itself (false condition), optionally inside a parallel branch, under perturbation at start.flow / subprocess.activate, in lock-step with the token game. "
                    "Every request, at process level and inside sub-processes alike, must be made in a context that descends from the one given to StartAll (the harness starts every "
                    "instance with a context that differs from the construction context by a value)."),
@@ -332,9 +332,9 @@ REGISTRY["C09"] = {
         # trace order of boundary-event flows (hosts entered again, two tokens in one host): every driven run checks that a flow id is announced once
         {"name": "TestC10Boundary", "pkg": "props/c10", "label": "boundary-event-flows", "env": {"VERIF_UNRESTRICTED": "1"}, "checks": {"quick": 100, "thorough": 3000}, "shards": {"quick": 4, "thorough": 8}},
         {"name": "TestC10Boundary", "pkg": "props/c10", "label": "boundary-event-flows-main", "checks": {"quick": 60, "thorough": 2000}, "shards": {"quick": 4, "thorough": 8}},
-        # nothing dropped on the way from inner flows to the subscribers of the instance's tracer: sub-processes with 1..8 start events
+        # nothing dropped on the way from inner flows to the subscribers of the instance's tracer: sub-processes with 1..12 start events
         # (the first inner flows are already sending while later start events are still being triggered) - the C12 campaign
-        {"name": "TestC12MultiStart", "pkg": "props/c12", "label": "inner-traces-of-multi-start-sub-processes", "checks": {"quick": 250, "thorough": 6000}, "shards": {"quick": 8, "thorough": 16}, "gomaxprocs": [16, 4, 2, 16]},
+        {"name": "TestC12MultiStart", "pkg": "props/c12", "label": "inner-traces-of-multi-start-sub-processes", "checks": {"quick": 500, "thorough": 6000}, "shards": {"quick": 12, "thorough": 16}, "gomaxprocs": [16, 4, 16, 16]},
     ],
 }
 
@@ -360,7 +360,7 @@ REGISTRY["C13"] = {
         {"name": "TestC13Many", "checks": {"quick": 40, "thorough": 1000}, "shards": {"quick": 4, "thorough": 8}, "gomaxprocs": [16, 4, 2, 1]},
         # "after cancellation a timer never fires again / continues exactly once per firing it was LISTENING for": timer boundary events on hosts that complete
         # before the timer is due, are interrupted, or are entered again - the C10 campaign (a fifth of its cases attach a duration timer, mock clock)
-        {"name": "TestC10Boundary", "pkg": "props/c10", "label": "timer-boundary-events", "checks": {"quick": 300, "thorough": 3000}, "shards": {"quick": 4, "thorough": 8}},
+        {"name": "TestC10Boundary", "pkg": "props/c10", "label": "timer-boundary-events", "env": {"VERIF_UNRESTRICTED": "1"}, "checks": {"quick": 300, "thorough": 3000}, "shards": {"quick": 4, "thorough": 8}},
     ],
 }
 
